@@ -35,13 +35,15 @@ def vec(rng, n, kind):
 def structure(ctx):
     from qclib.state_preparation.blackbox import BlackBoxInitialize
     from qiskit.quantum_info import Operator
-    nmax = 5 if ctx.quick else 8
+    nmax = 7 if ctx.quick else 8
     for n in range(1, nmax + 1):
         N = 2 ** n
         r_prop = math.isqrt(int((math.pi ** 2) * N / 16 * 10 ** 12) // 10 ** 12 + 0) if False else int(math.floor(math.pi * math.sqrt(N) / 4))
         assert abs(math.pi * math.sqrt(N) / 4 - round(math.pi * math.sqrt(N) / 4)) > 1e-6
         for kind in ("complex", "basis", "sparse", "real"):
-            for _ in range(2 if ctx.quick else 5):
+            for _ in range((1 if n >= 6 else 2) if ctx.quick else 5):
+                if ctx.quick and n >= 6 and kind in ("sparse", "real"):
+                    continue
                 v = vec(ctx.rng, n, kind)
                 g = BlackBoxInitialize(v)
                 c = g.definition
